@@ -399,6 +399,6 @@ func runCase(c Case, ctx *hx.Ctx) *hx.Failure {
 	return nil
 }
 
-func TestPropContains(t *testing.T) { hx.Check(t, 20000, genCase, runCase) }
+func TestPropContains(t *testing.T) { hx.Check(t, 40000, genCase, runCase) }
 
 func TestReplay(t *testing.T) { hx.Replay(t, "TestPropContains", 1, runCase) }
